@@ -213,3 +213,28 @@ def return_variable(src):
     tree = _ReturnVar().visit(tree)
     ast.fix_missing_locations(tree)
     return ast.unparse(tree)
+
+
+class _SwapIfElse(ast.NodeTransformer):
+    """`if c: A else: B` -> `if not c: B else: A` for plain two-armed ifs (no elif chains), and `x if c else y` -> `y if not c else x`."""
+
+    def visit_If(self, node):
+        self.generic_visit(node)
+        if node.orelse and not (len(node.orelse) == 1 and isinstance(node.orelse[0], ast.If)):
+            test = node.test.operand if isinstance(node.test, ast.UnaryOp) and isinstance(node.test.op, ast.Not) else ast.UnaryOp(op=ast.Not(), operand=node.test)
+            return ast.copy_location(ast.If(test=test, body=node.orelse, orelse=node.body), node)
+        return node
+
+    def visit_IfExp(self, node):
+        self.generic_visit(node)
+        test = node.test.operand if isinstance(node.test, ast.UnaryOp) and isinstance(node.test.op, ast.Not) else ast.UnaryOp(op=ast.Not(), operand=node.test)
+        return ast.copy_location(ast.IfExp(test=test, body=node.orelse, orelse=node.body), node)
+
+
+def swap_if_else(src):
+    with warnings.catch_warnings():
+        warnings.simplefilter("ignore")
+        tree = ast.parse(src)
+    tree = _SwapIfElse().visit(tree)
+    ast.fix_missing_locations(tree)
+    return ast.unparse(tree)
